@@ -474,12 +474,15 @@ Theorem C05_removed_scale_lut_route_agrees :
 Proof. exact route_scale_lut_agrees. Qed.
 Print Assumptions C05_removed_scale_lut_route_agrees.
 
-(* The caller's event arrays: with copy=True (default) no array that existed
-   before the call is modified; the returned values are the pure get_emodulus
-   of the values the arrays held. *)
+(* The caller's arrays (abscissa, deform AND the temperature array) live in
+   a heap; get_emodulus_mem follows np.array(copy=copy), the in-place
+   pixelation correction and normalisation, reads the temperature array when
+   get_viscosity is called and computes the result FROM THE ARRAYS AS THEY
+   ARE when griddata is called.  copy=True (default): no array that existed
+   before the call is modified, ... *)
 Theorem C05_callers_arrays_not_modified :
   forall (tri : list pt -> list triangle) (delta : feat -> Q -> Q -> Q)
-         (eta : Q -> Q) (m0 : mem) (L : lut) (S : setup) (md : medium)
+         (eta : Q -> Q) (m0 : mem) (L : lut) (S : setup) (md : mmedium)
          (ax ad a : N),
     (a < h_next m0)%N ->
     mread (fst (get_emodulus_mem tri delta eta true m0 L S md ax ad)) a
@@ -487,20 +490,38 @@ Theorem C05_callers_arrays_not_modified :
 Proof. exact mem_copy_preserves. Qed.
 Print Assumptions C05_callers_arrays_not_modified.
 
-Theorem C05_mem_result_is_pure :
+(* ... and the returned values are the pure get_emodulus of the values the
+   arrays held, whatever the addresses (also the same array passed twice). *)
+Theorem C05_mem_result_is_pure_copy :
   forall (tri : list pt -> list triangle) (delta : feat -> Q -> Q -> Q)
-         (eta : Q -> Q) (copy : bool) (m0 : mem) (L : lut) (S : setup)
-         (md : medium) (ax ad : N),
-    snd (get_emodulus_mem tri delta eta copy m0 L S md ax ad)
-    = get_emodulus tri delta eta L S md (combine (mread m0 ax) (mread m0 ad)).
-Proof. exact mem_result_is_pure. Qed.
-Print Assumptions C05_mem_result_is_pure.
+         (eta : Q -> Q) (m0 : mem) (L : lut) (S : setup) (md : mmedium)
+         (ax ad : N),
+    (ax < h_next m0)%N -> (ad < h_next m0)%N ->
+    (forall a, md = MMArray a -> (a < h_next m0)%N) ->
+    snd (get_emodulus_mem tri delta eta true m0 L S md ax ad)
+    = get_emodulus tri delta eta L S (medium_of m0 md)
+                   (combine (mread m0 ax) (mread m0 ad)).
+Proof. exact mem_result_is_pure_copy. Qed.
+Print Assumptions C05_mem_result_is_pure_copy.
 
-(* copy=False (documented: inputs are overridden): exactly the deform array
-   is overwritten, with the corrected normalised deformation. *)
+(* copy=False (documented: inputs are overridden): the result is still the
+   pure one PROVIDED the arrays are distinct (ex_alias_nocopy_differs shows
+   the hypothesis is needed); exactly the deform array is overwritten. *)
+Theorem C05_mem_result_is_pure_nocopy :
+  forall (tri : list pt -> list triangle) (delta : feat -> Q -> Q -> Q)
+         (eta : Q -> Q) (m0 : mem) (L : lut) (S : setup) (md : mmedium)
+         (ax ad : N),
+    (ax < h_next m0)%N -> (ad < h_next m0)%N -> ax <> ad ->
+    (forall a, md = MMArray a -> (a < h_next m0)%N /\ a <> ad) ->
+    snd (get_emodulus_mem tri delta eta false m0 L S md ax ad)
+    = get_emodulus tri delta eta L S (medium_of m0 md)
+                   (combine (mread m0 ax) (mread m0 ad)).
+Proof. exact mem_result_is_pure_nocopy. Qed.
+Print Assumptions C05_mem_result_is_pure_nocopy.
+
 Theorem C05_nocopy_only_deform_overwritten :
   forall (tri : list pt -> list triangle) (delta : feat -> Q -> Q -> Q)
-         (eta : Q -> Q) (m0 : mem) (L : lut) (S : setup) (md : medium)
+         (eta : Q -> Q) (m0 : mem) (L : lut) (S : setup) (md : mmedium)
          (ax ad a : N),
     (a < h_next m0)%N -> a <> ad ->
     mread (fst (get_emodulus_mem tri delta eta false m0 L S md ax ad)) a
@@ -510,7 +531,7 @@ Print Assumptions C05_nocopy_only_deform_overwritten.
 
 Theorem C05_nocopy_deform_contents :
   forall (tri : list pt -> list triangle) (delta : feat -> Q -> Q -> Q)
-         (eta : Q -> Q) (m0 : mem) (L : lut) (S : setup) (md : medium)
+         (eta : Q -> Q) (m0 : mem) (L : lut) (S : setup) (md : mmedium)
          (ax ad : N),
     (ad < h_next m0)%N -> ax <> ad ->
     mread (fst (get_emodulus_mem tri delta eta false m0 L S md ax ad)) ad
